@@ -39,6 +39,42 @@ P.append(("collide", api(op("/c", "c", "foo_bar"), "    foo_bar: {type: object, 
 P.append(("hdrpatdef", api("  /g:\n    get:\n      operationId: g\n      responses:\n        '200': {description: ok, headers: {X-R: {required: false, schema: {type: string}}}, content: {application/json: {schema: {$ref: '#/components/schemas/O'}}}}\n        '4XX': {description: c, content: {application/json: {schema: {$ref: '#/components/schemas/E'}}}}\n        default: {description: d, content: {application/json: {schema: {$ref: '#/components/schemas/E'}}}}\n",
                         "    E: {type: object, required: [m], properties: {m: {type: string}}}\n    O: {type: object, required: [v], properties: {v: {type: string}}}\n")))
 import os
+# 10. enum values that give little to build an identifier from (punctuation-only, non-ASCII-only, digit-first, near-collisions)
+for i, vals in enumerate([['*', 'read', 'write'], ['_', 'a'], ['?', 'b', 'B'], ['\u20ac', 'eur'], ['\u4e2d\u6587', 'zh'], ['*', '?'], ['1', '1.0', '01'], ['a-b', 'a_b', 'a b', 'aB'], ['+', '-', '/', '<', '>', '=', '.'], ['Scope', 'scope', 'SCOPE']]):
+    P.append(("enumedge%d" % i, api("  /g:\n    get:\n      operationId: g\n      parameters:\n        - {name: scope, in: query, schema: {$ref: '#/components/schemas/Scope'}}\n      responses:\n        '200': {description: ok, content: {application/json: {schema: {type: array, items: {$ref: '#/components/schemas/Grant'}}}}}\n",
+                  "    Scope: {type: string, enum: %s}\n    Grant: {type: object, required: [scope], properties: {scope: {$ref: '#/components/schemas/Scope'}}}\n" % json.dumps(vals))))
+# 11. one generic (nullable / optional / array) type as the direct body of several operations' responses
+for i, sch in enumerate(["{type: string, nullable: true}", "{type: integer, nullable: true}", "{type: array, items: {type: string}}", "{type: string, format: uuid, nullable: true}", "{type: object, additionalProperties: {type: string}}"]):
+    pp = ""
+    for opid in ("getNickname", "getAvatarURL", "getThird"):
+        pp += "  /u/{id}/%s:\n    get:\n      operationId: %s\n      parameters:\n        - {name: id, in: path, required: true, schema: {type: string}}\n      responses:\n        '200': {description: ok, content: {application/json: {schema: %s}}}\n        '404': {description: none}\n" % (opid, opid, sch)
+    P.append(("sharedgen%d" % i, api(pp)))
+# 12. object-shaped parameters: free-form maps and structs, per style, alone in their spec
+for i, (style, explode, sch) in enumerate([("deepObject", "true", "{type: object, additionalProperties: {type: string}}"), ("form", "true", "{type: object, additionalProperties: {type: string}}"),
+                                           ("form", "false", "{type: object, additionalProperties: {type: integer}}"), ("deepObject", "true", "{type: object, required: [a], properties: {a: {type: string}, b: {type: integer}}}"),
+                                           ("form", "true", "{type: object, properties: {a: {type: string}}}")]):
+    P.append(("objparam%d" % i, api("  /items:\n    get:\n      operationId: searchItems\n      parameters:\n        - {name: filter, in: query, style: %s, explode: %s, schema: %s}\n      responses:\n        '200': {description: ok, content: {application/json: {schema: {type: array, items: {type: string}}}}}\n" % (style, explode, sch))))
+for loc, style in (("header", "simple"), ("cookie", "form"), ("path", "simple"), ("path", "label"), ("path", "matrix")):
+    req = "true" if loc == "path" else "false"
+    P.append(("objparam_%s_%s" % (loc, style), api("  /items/{f}:\n    get:\n      operationId: it\n      parameters:\n        - {name: f, in: %s, required: %s, style: %s, schema: {type: object, required: [a], properties: {a: {type: string}, b: {type: integer}}}}\n%s      responses:\n        '200': {description: ok}\n" % (loc, req, style, "" if loc == "path" else "        - {name: f, in: path, required: true, schema: {type: string}}\n"))))
+# 13. feature configurations on a spec with paths, webhooks, security, validation keywords
+FEATURES = {}
+fs = open(os.path.join(os.path.dirname(os.path.abspath(__file__)), "spec_features.yml")).read()
+for name, (en, dis) in {
+    "feat_all": ([], []),
+    "feat_clientonly": ([], ["paths/server", "webhooks/server", "ogen/unimplemented"]),
+    "feat_serveronly": ([], ["paths/client", "webhooks/client"]),
+    "feat_nowebhooks": ([], ["webhooks/client", "webhooks/server"]),
+    "feat_nopaths": ([], ["paths/client", "paths/server"]),
+    "feat_validation": (["client/request/validation", "server/response/validation"], []),
+    "feat_reqopts": (["client/request/options", "client/security/reentrant"], []),
+    "feat_examples": (["debug/example_tests"], []),
+    "feat_nounimpl": ([], ["ogen/unimplemented"]),
+    "feat_everything": (["client/request/validation", "server/response/validation", "client/request/options", "client/security/reentrant", "debug/example_tests"], []),
+}.items():
+    P.append((name, fs))
+    FEATURES[name] = (en, dis)
+P.append(("webhooksec", open(os.path.join(os.path.dirname(os.path.abspath(__file__)), "spec_webhook_security.yml")).read()))
 P.append(("patdefdup", open(os.path.join(os.path.dirname(os.path.abspath(__file__)), "spec_pattern_default_dup.yml")).read()))
-print(json.dumps({"packages": [{"name": n, "spec": s} for n, s in P], "cases": {"quick": [], "thorough": []},
-                  "bounds": {"specs": "%d specs: response pattern+default sharing a schema, hostile property / schema / operation / parameter names (keywords, digits-first, spaces, quotes, backslash, non-ASCII, '_', colliding after normalisation), enum values needing escaping, nested/optional/nullable/map/recursive shapes, sum types, several response codes with headers" % len(P)}}))
+print(json.dumps({"packages": [dict({"name": n, "spec": s}, **({"enable": FEATURES[n][0], "disable": FEATURES[n][1]} if n in FEATURES else {})) for n, s in P], "cases": {"quick": [], "thorough": []},
+                  "bounds": {"specs": "%d specs: response pattern+default sharing a schema, hostile property / schema / operation / parameter names (keywords, digits-first, spaces, quotes, backslash, non-ASCII, '_', colliding after normalisation), enum values needing escaping, nested/optional/nullable/map/recursive shapes, sum types, several response codes with headers, enum values with nothing to build an identifier from, one generic type as the body of several operations, object-shaped parameters (maps and structs) per location and style, and one spec (paths, webhooks, security, validation keywords) under 10 feature configurations incl. client-only, server-only, validation, request options and example tests" % len(P)}}))
